@@ -701,6 +701,31 @@ def _summ(o, knobs):
 
 
 def run(scn, full_log=False):
+    res = _run(scn, full_log)
+    viol = res["violations"]
+    if any("umbrella" in v for v in viol):
+        # Interim responses precede the final one.  Does the same thing go wrong without
+        # them?  Then it is not the interim handling: report it under its own key.
+        data = bytes.fromhex(scn["stream"][4:])
+        start = res["final_start"]
+        segs, off = [], 0
+        for sg in scn.get("segs") or ():
+            ln = max(1, sg[0])
+            keep = off + ln - max(off, start)
+            if keep > 0:
+                segs.append([keep, sg[1]])
+            off += ln
+        plain = dict(scn, stream="hex:" + data[start:].hex(), segs=segs, baseline=False)
+        same = {v["key"] for v in _run(plain, False)["violations"]}
+        for v in viol:
+            u = v.pop("umbrella", None)
+            if u is not None and v["key"] not in same:
+                v["rule"] = v["key"] = u
+    res.pop("final_start", None)
+    return res
+
+
+def _run(scn, full_log=False):
     from tornado import httputil
 
     knobs = scn["knobs"]
@@ -714,9 +739,9 @@ def run(scn, full_log=False):
                         max_body_size=mbs, decompress=decompress)
     viol = []
     probes = {}
-    # Everything that goes wrong while interim (1xx) responses precede the final one is
-    # reported under one umbrella per symptom: the read loop's handling of interim responses
-    # has its own defects, whose secondary symptoms would otherwise pollute every other class.
+    # What goes wrong only because interim (1xx) responses precede the final one is reported
+    # under one umbrella key per symptom (see run()): the handling of interim responses has
+    # its own defects, whose secondary symptoms would otherwise pollute every other class.
     if not ref.interim:
         umb = None
     elif any("content-encoding" in headers_multimap(ic[2]) for ic in ref.interim):
@@ -725,12 +750,12 @@ def run(scn, full_log=False):
         umb = "c08.after_interim."
 
     def bad(rule, msg, key=None):
-        if umb is not None and rule.startswith("c08."):
-            rule = umb + rule[4:].split(".")[0]
-            key = rule
         # rule == key: the shrinker only keeps candidates that fail with the same *rule*, and a
         # violation must not drift into the class of another (possibly known) defect
-        viol.append({"rule": key or rule, "key": key or rule, "msg": msg})
+        v = {"rule": key or rule, "key": key or rule, "msg": msg}
+        if umb is not None and rule.startswith("c08."):
+            v["umbrella"] = umb + rule[4:].split(".")[0]
+        viol.append(v)
 
     def probe(name, k=1):
         probes[name] = probes.get(name, 0) + k
@@ -914,7 +939,8 @@ def run(scn, full_log=False):
                   and (o["arrivals"] >= 2 or faults.get("short_read", 0) > 0))
     outcome = {"ref": repr(ref), "got": [res[0]] + ([res[1]] if len(res) > 1 else [])}
     return {"violations": viol, "nontrivial": bool(nontrivial), "stats": st,
-            "log_head": o["log_head"], "log_full": o["log_full"], "outcome": outcome}
+            "log_head": o["log_head"], "log_full": o["log_full"], "outcome": outcome,
+            "final_start": ref.final_start}
 
 
 if __name__ == "__main__":  # developer aid: disagreement classes over N seeds
